@@ -282,15 +282,35 @@ def dname(*labels):
     return b"".join(bytes([len(l)]) + l for l in labels) + b"\0"
 
 
-def dns(ident, flags, qs, ans=(), auth=(), add=()):
-    """qs: [(namebytes, qtype, qclass)], rr: [(namebytes, type, class, ttl, rdata)] — names given in wire form (may contain pointers)"""
-    b = struct.pack("!HHHHHH", ident, flags, len(qs), len(ans), len(auth), len(add))
-    marks = []; keys = [2, 3, 4, 5, 6, 7, 8, 9, 10, 11]
+def dns(ident, flags, qs, ans=(), auth=(), add=(), counts=None, namekeys=False):
+    """qs: [(namebytes, qtype, qclass)], rr: [(namebytes, type, class, ttl, rdata)] — names given in wire form (may contain pointers).
+    namekeys: the label-length / pointer octets, the record type and the rdlength octets are key offsets too (small frames)"""
+    q, a, au, ad = counts or (len(qs), len(ans), len(auth), len(add))
+    b = struct.pack("!HHHHHH", ident, flags, q, a, au, ad)
+    # the header octets are key offsets of the plain frames; the name-decompression frames sweep the name / type / rdlength octets instead
+    marks = []; keys = [] if namekeys else [2, 3, 4, 5, 6, 7, 8, 9, 10, 11]
+    if namekeys == "counts": keys = [5, 7, 9, 11]
+    if namekeys == "none": namekeys = False; keys = [5]          # (one key keeps the sweep inside this header)
+
+    def name_offsets(n, base):
+        out = []; i = 0
+        while i < len(n):
+            out.append(base + i)
+            if n[i] & 0xc0 == 0xc0: out.append(base + i + 1); i += 2
+            elif n[i] == 0: break
+            else: i += 1 + n[i]
+        return out
     for n, t, c in qs:
-        marks += [len(b) + i for i, x in enumerate(n) if x & 0xc0 == 0xc0 or x < 64][:6]
+        no = name_offsets(n, len(b))
+        marks += no[:6]
+        if namekeys: keys += no + [len(b) + len(n) + 1]
         b += n + struct.pack("!HH", t, c)
     for n, t, c, ttl, rd in list(ans) + list(auth) + list(add):
         marks += [len(b), len(b) + 1, len(b) + len(n) + 1, len(b) + len(n) + 8, len(b) + len(n) + 9, len(b) + len(n) + 10, len(b) + len(n) + 11]
+        if namekeys:
+            keys += name_offsets(n, len(b)) + [len(b) + len(n) + 1, len(b) + len(n) + 8, len(b) + len(n) + 9]
+            if t in (2, 5, 12): keys += name_offsets(rd, len(b) + len(n) + 10)
+            if t == 15: keys += name_offsets(rd[2:], len(b) + len(n) + 12)
         b += n + struct.pack("!HHIH", t, c, ttl, len(rd)) + rd
     return H(b, *marks, keys=keys)
 
@@ -419,6 +439,31 @@ def corpus():
         add=[(b"\xc0\x10", 15, 1, 300, b"\x00\x0a" + dname(b"mx")[:-1] + b"\xc0\x10"), (ptr, 16, 1, 300, b"\x05hello"), (ptr, 12, 1, 300, b"\xc0\x0c"), (ptr, 99, 1, 0, b"\x01\x02")])))))
     add("mdns", eth(0x0800, ip4(17, udp(5353, 5353, dns(0, 0x8400, [], ans=[(dname(b"_http", b"_tcp", b"local"), 12, 1, 120, dname(b"printer", b"_http", b"_tcp", b"local"))])), dst=0xe00000fb)))
     add("dns-empty", eth(0x0800, ip4(17, udp(53, 1, dns(1, 0, [])))))
+    # name decompression (reachable once DNS names are read as bytes, D46): pointers backwards / forwards / to themselves / in a cycle / in a
+    # chain, label lengths with the top bits 01 and 10, labels that are not UTF-8, names and record data that run past the end, counts that lie
+    D = lambda name, *a, **k: add(name, eth(0x0800, ip4(17, udp(33333, 53, dns(7, 0x0100, *a, **dict({"namekeys": True}, **k))))))
+    short = dname(b"a", b"bc")
+    D("dns-q-short", [(short, 1, 1)], namekeys="counts")
+    D("dns-ptr-self", [(b"\xc0\x0c", 1, 1)])
+    D("dns-ptr-cycle", [(b"\x01a\xc0\x12", 1, 1), (b"\x01b\xc0\x0c", 1, 1)])
+    D("dns-ptr-fwd", [(b"\xc0\x12", 1, 1), (short, 28, 1)])
+    D("dns-ptr-chain", [(short, 1, 1)] + [(bytes([0xc0, 12 if i == 0 else 22 + 6 * (i - 1)]), 1, 1) for i in range(8)], namekeys="none")
+    D("dns-label-bits", [(b"\x41" + b"x" * 65 + b"\x00", 1, 1)])
+    D("dns-label-utf8", [(b"\x02\xc3\xa9\x03\xe2\x82\xac\x04\xf0\x9f\x98\x80\x00", 1, 1)], namekeys="none")
+    D("dns-label-bad-utf8", [(b"\x02\xc3\x28\x00", 1, 1)], namekeys="none")
+    D("dns-label-surrogate", [(b"\x03\xed\xa0\x80\x00", 1, 1)], namekeys="none")
+    D("dns-label-overlong", [(b"\x02\xc0\xaf\x00", 1, 1)], namekeys="none")
+    D("dns-label-cut-seq", [(b"\x02\xe0\x80\x00", 1, 1)], namekeys="none")
+    D("dns-label-toobig", [(b"\x04\xf4\x90\x80\x80\x00", 1, 1)], namekeys="none")
+    D("dns-name-past-end", [(b"\x09abc", 1, 1)])
+    D("dns-rr-types", [(short, 255, 1)], ans=[(b"\xc0\x0c", 1, 1, 60, bytes([10, 0, 0, 1])), (b"\xc0\x0c", 1, 1, 60, bytes([10, 0, 1])),
+                                                (b"\xc0\x0c", 28, 1, 60, IP6_A[:15]), (b"\xc0\x0c", 15, 1, 60, b"\x00\x05\x02mx\xc0\x0c"),
+                                                (b"\xc0\x0c", 15, 1, 60, b"\x00"), (b"\xc0\x0c", 12, 1, 60, b"\xc0\x0e"), (b"\xc0\x0c", 16, 1, 60, b"")])
+    D("dns-rr-a-bad", [], ans=[(short, 1, 1, 60, bytes([10, 0, 1]))], namekeys="none")
+    D("dns-rr-aaaa-bad", [], ans=[(short, 28, 1, 60, IP6_A[:15])], namekeys="none")
+    D("dns-rr-rdata-ptr-loop", [], ans=[(short, 5, 1, 60, b"\xc0\x1c")])
+    D("dns-counts-lie", [(short, 1, 1)], counts=(2, 1, 0, 0), namekeys="none")
+    D("dns-many-questions", [(short, 1, 1)], counts=(65535, 65535, 65535, 65535), namekeys="none")
     add("eapol-start", eth(0x888e, eapol(1, 1, b"")))
     add("eapol-logoff", eth(0x888e, eapol(2, 2, b"")))
     add("eapol-key", eth(0x888e, eapol(2, 3, b"\x02" + b"\0" * 20)))
